@@ -296,6 +296,7 @@ def doOpW (d : D) (op : List String) (impl : List (List String)) : D × List (Li
     | _, _ => (d, [["bad-op"]])
   | ["q", n] =>
     qLoop ((parseNat n).getD 0) d [] impl
+  | ["free", _, _] => (d, impl)   -- free-running stress: nothing to predict, only the oracle applies
   | ["stats"] =>
     if statsSafe d then
       (d, [["stats", toString d.s.input, toString d.s.dropped.length, toString (curLen d.s), toString (curCap d.s),
@@ -317,6 +318,7 @@ structure Look where
   rets  : List IngestSpec.Row := []
   procs : List IngestSpec.Row := []
   stopped : Bool := false
+  lastSeq : List (Nat × Nat) := []      -- per producer: sequence number of its last processed row
   lastCap : Option Nat := none
   verdict : String := "ok"
 
@@ -340,13 +342,15 @@ def lookLine (k : IngestSpec.Kfg) (lk : Look) (l : List String) : Look :=
     | none => lk
   | ["proc", p, q] => match rowOf p q with
     | some r =>
-      let lk := { lk with procs := lk.procs ++ [r] }
-      -- order / once-only are checked as soon as a row is processed
-      let o : IngestSpec.Obs := { calls := lk.calls, rets := lk.rets, procs := lk.procs, input := lk.calls.length,
-                                  dropped := 0, len := 0, cap := k.cap0, stopped := true }
+      -- order is checked as soon as a row is processed (incrementally; the full clauses run at `stats`)
+      let prev := (lk.lastSeq.find? (fun x => x.1 == r.1)).map (·.2)
+      let bad := match prev with
+        | some k => decide (r.2 ≤ k)
+        | none => false
+      let lk := { lk with procs := lk.procs ++ [r], lastSeq := (r.1, r.2) :: lk.lastSeq.filter (fun x => x.1 != r.1) }
       if lk.verdict != "ok" then lk
-      else if !IngestSpec.onceOnly o then { lk with verdict := "fail:once-only" }
-      else if !IngestSpec.ordered o.procs then { lk with verdict := "fail:order" }
+      else if bad then { lk with verdict := "fail:order" }
+      else if !lk.calls.contains r then { lk with verdict := "fail:once-only" }
       else lk
     | none => lk
   | ["th", "stop", pt] => if pt == "skip" then lk else { lk with stopped := true }
@@ -382,6 +386,7 @@ def run (c : Case) : CaseOut := Id.run do
       let tag := match l with
         | ["th", _, pt] => some pt
         | ["stats", _, _, _, _, q] => some ("stats-quiescent-" ++ q)
+        | ["anomaly-unreproduced", w] => some ("free-anomaly-unreproduced-" ++ w)
         | _ => none
       match tag with
       | some t => unless tags.contains t do tags := t :: tags
